@@ -41,8 +41,9 @@ def binRule (t : Tok) : Option String := ruleOfTok Gen.binaryOpAlts t
 /-- `unary_op` -/
 def unRule (t : Tok) : Option String := ruleOfTok Gen.unaryOpAlts t
 
-/-- `keyword` (the word is a maximal run, so the boundary look-ahead holds iff the whole word is listed) -/
-def isKeyword (w : String) : Bool := Gen.keywords.contains w
+/-- `keyword` (the word is a maximal run, so the boundary look-ahead holds iff the whole word is listed); the lone
+`_` (`no_par`) is no variable either: `simple_variable` needs a letter -/
+def isKeyword (w : String) : Bool := Gen.keywords.contains w || w == "_"
 
 /-- `function_name = @{ LETTER+ ~ ("_" ~ (LETTER | NUMBER)+)* }` directly followed by `(`, on a word
 without inner underscore: all letters. -/
@@ -248,7 +249,8 @@ def wordRest : Nat → String → List Tok → PRes (PExp × List Tok)
   | f+1, w, rest =>
     match rest with
     | .lbrack :: _ =>
-      -- `array_access = { simple_variable ~ pointer_access_list }` (no keyword look-ahead)
+      -- `array_access = { simple_variable ~ pointer_access_list }` (no keyword look-ahead; `_` is no `simple_variable`)
+      if w == "_" then wordLeaf w rest else
       match accessLoop f rest [] with
       | .ok ([], _) => wordLeaf w rest
       | .ok (idx, r') => .ok (.access w idx, r')
@@ -291,7 +293,7 @@ def iterDecl : Nat → List Tok → PRes ((IterVar × PExp) × List Tok)
   | f+1, toks =>
     match toks with
     | .word v :: .word i :: r =>
-      if lowerWord i == "in" then
+      if lowerWord i == "in" && v != "_" then
         match iterator f r with
         | .ok (it, r') => .ok ((.single v, it), r')
         | .error e => .error e
